@@ -530,7 +530,7 @@ def run(ctx: Ctx) -> Outcome:
     live = gen_styles.collect()
     markers = [m["name"] for m in live["markers"]]
     dcs, box_classes, edge_classes, ports = table_classes()
-    out.table_obligations = 2 * (-(-len(live["entries"]) // gen_styles.ROWS_PER_CHUNK)) + 2 * (-(-len(live["symbols"]) // gen_styles.ROWS_PER_CHUNK)) + 5
+    out.table_obligations = 3 * (-(-len(live["entries"]) // gen_styles.ROWS_PER_CHUNK)) + 2 * (-(-len(live["symbols"]) // gen_styles.ROWS_PER_CHUNK)) + 9
 
     combos = [(k, c) for k in ("box", "symbol", "box_symbol") for c in box_classes] + \
              [(k, c) for k in ("edge", "circle") for c in edge_classes] + [("port", c) for c in ports]
@@ -703,6 +703,9 @@ def run(ctx: Ctx) -> Outcome:
         want_syms = [[s["name"], s["id"], s["deps"], s["ids"], s["refs"]] for s in live["symbols"]]
         if dump is None or dump["symbols"] != want_syms or dump["markers"] != [[m["name"], m["deps"], m["id_faithful"], m["refs"]] for m in live["markers"]]:
             out.disagree("table-roundtrip", "symbols/markers", "live factories", "generated table differs")
+        want_dig = [[s_["name"], i, dg] for s_ in live["symbols"] for i, dg in s_["digests"]]
+        if dump is None or dump["digests"] != want_dig:
+            out.disagree("table-roundtrip", "symbol id digests", "live factories", "generated table differs")
         if dump is None or any(dump["sets"][k] != live["sets"][k] for k in dump["sets"]):
             out.disagree("table-roundtrip", "sets", "live decoration sets", "generated table differs")
         out.hit("table-roundtrip")
